@@ -318,6 +318,11 @@ func c02GenOp(t *rapid.T, mode string, n c02Node, nSlots int) c02Op {
 		o.B = rapid.IntRange(1, 3).Draw(t, "times")
 	case "drift":
 		o.API = rapid.SampledFrom([]string{"rmip", "rmip", "rmeni", "detach", "addip", "addeni"}).Draw(t, "drift")
+		if n.EFLO && rapid.IntRange(0, 1).Draw(t, "ipstatus") == 0 {
+			// LingJun: the cloud reports an existing address in a transient status for the
+			// next 1..3 observations; C = 1: a full sync happens right away
+			o.API = "ipstatus"
+		}
 		o.A = rapid.IntRange(0, 7).Draw(t, "eni")
 		o.B = rapid.IntRange(0, 23).Draw(t, "addr")
 		o.C = rapid.IntRange(0, 1).Draw(t, "v6")
@@ -975,7 +980,11 @@ func c02Fam(v6 bool) string {
 // c02CheckRecord checks the C02 invariants (i)-(vi) of DESIGN section 3 on a record, given
 // the record before the pass and the pod table as it was when the pass started. It returns
 // the first violation ("" if none) and classification facts.
-func c02CheckRecord(prev, cur map[string]*networkv1beta1.NetworkInterface, pods map[string]*c02PodView, everPod map[string]bool, enableERDMA bool) (string, map[string]bool) {
+//
+// detached names the interfaces of prev that were not attached to the instance in the cloud
+// when the pass started (nil: all attached): a binding is protected only while its interface
+// is attached, marking such an interface for deletion is the right reaction to drift.
+func c02CheckRecord(prev, cur map[string]*networkv1beta1.NetworkInterface, pods map[string]*c02PodView, everPod map[string]bool, detached map[string]bool, enableERDMA bool) (string, map[string]bool) {
 	facts := map[string]bool{}
 	where := map[string]string{}
 	type podB struct{ eni4, a4, eni6, a6 string }
@@ -1017,7 +1026,7 @@ func c02CheckRecord(prev, cur map[string]*networkv1beta1.NetworkInterface, pods 
 		if prevPod[key] == b.pod {
 			// (iv) kept binding: the pass must not schedule the address (or its interface)
 			// of a pod that still exists for deletion
-			if pv := pods[b.pod]; pv != nil && pv.eligible && prevValid[key] {
+			if pv := pods[b.pod]; pv != nil && pv.eligible && prevValid[key] && !detached[b.eni] {
 				if b.ipStatus == networkv1beta1.IPStatusDeleting {
 					return fmt.Sprintf("(iv) address %s on %s is bound to pod %s, which still exists, and was scheduled for deletion by this pass", b.addr, b.eni, b.pod), facts
 				}
